@@ -35,6 +35,7 @@ def main() -> int:  # noqa: C901, PLR0915
     ap.add_argument("--flags", default="")
     ap.add_argument("--canary", default="")
     ap.add_argument("--no-twin", action="store_true")
+    ap.add_argument("--e2", action="store_true")
     ap.add_argument("--out", required=True)
     a = ap.parse_args()
     flags = [f for f in a.flags.split(",") if f]
@@ -42,6 +43,30 @@ def main() -> int:  # noqa: C901, PLR0915
     os.environ["VERIF_FLAGS"] = ",".join(flags)
     t_start = time.time()
     result = {"fn": a.fn, "flags": flags, "canary": a.canary or None}
+    if a.e2:
+        try:
+            sys.modules["zarr"] = None
+            spec = importlib.util.spec_from_file_location("verif_gen", a.gen)
+            mod = importlib.util.module_from_spec(spec)
+            sys.modules["verif_gen"] = mod
+            spec.loader.exec_module(mod)
+            r = getattr(mod, a.fn)()
+            st = {"CONFIRMED": "CONFIRMED", "REFUTED": "POST_FAIL"}.get(r["state"], "CANNOT_CONFIRM")
+            result["main"] = {
+                "state": st, "message": r.get("message", ""), "traceback": "", "ce": r.get("ce") if st == "POST_FAIL" else None,
+                "paths": r.get("paths", 0), "z3_calls": r.get("z3_calls", 0), "z3_s": r.get("z3_s", 0.0), "wall_s": r.get("wall_s", 0.0),
+            }  # fmt: skip
+            result["functions_encoded"] = r.get("functions_encoded", [])
+            result["assumptions"] = [
+                "E2: AST interpreter over z3 strings/ints/reals (engine/kernelsmt/pyz3.py); floats as reals; regex literals translated to z3 regexes; "
+                "translator validated on the literal inputs of the repository's own tests before every obligation"
+            ]
+        except BaseException as e:  # noqa: BLE001
+            result["error"] = "".join(traceback.format_exception(type(e), e, e.__traceback__))[-3000:]
+        result["wall_s"] = round(time.time() - t_start, 2)
+        with open(a.out, "w") as f:
+            json.dump(result, f)
+        return 0
     try:
         from engine import shims
 
